@@ -168,8 +168,27 @@ def run(ck):
     ck.trusted += ["hook H1 (ROOTS line, real Trace edges, enabled / blocklisted / allowlisted / codegen flags)",
                    "the `regex` crate is an oracle: whole-name anchoring is observed through allowlisting behaviour only (not modelled in Coq)",
                    "rustc as the judge of 'the output compiles on its own'",
+                   "translator/tr_c09.py: inventory of the tracer.visit / visit_kind calls of every `impl Trace` with their enclosing conditions, compared with the committed table data/c09/trace_edges.json (fails closed on shape changes)",
                    "modelled, not verified: the textual identity of each emitted item is compared, not proved (lazily assigned anonymous-item counters)"]
     vlib.coq_check_properties(ck, "theories/C09/Properties.v")
+    # ---- static tie: the edges every `impl Trace` hands to a tracer (kinds, loops, conditions, early exits) == the committed table.
+    # The model's traversal runs over the edges the implementation reports, so an edge that silently disappears (or becomes conditional)
+    # cannot show in the dump correspondence; it shows here, and the C++ / C families below look for the concrete input.
+    sys.path.insert(0, os.path.join(ROOT, "translator"))
+    import tr_c09
+    try:
+        now = tr_c09.main(REPO)
+        want = json.load(open(os.path.join(ROOT, "data", "c09", "trace_edges.json")))
+        diff = []
+        for k in sorted(set(now) | set(want)):
+            a, b = want.get(k), now.get(k)
+            if a != b:
+                diff.append({"impl": k, "committed": [(x["kind"], x["under"]) for x in (a or [])], "source": [(x["kind"], x["under"]) for x in (b or [])]})
+        ck.obligation("translator:impl Trace edges == committed table (data/c09/trace_edges.json)", not diff, "%d Trace impls, %d edges, %d impls differ" % (len(now), sum(len(v) for v in now.values()), len(diff)))
+        if diff:
+            ck.broken("tie", "the edges an `impl Trace` reports differ from the committed table", json.dumps(diff[:4], indent=1)[:6000])
+    except (tr_c09.Shape, tr_c09.LexError, OSError, ValueError) as e:
+        raise TieBroken("translator:impl Trace", repr(e))
     ok, out = vlib.coq_make(["theories/C09/Model.vo", "theories/C07/Exec.vo"])
     if not ok:
         raise TieBroken("coq-build:C09", out)
